@@ -9,7 +9,7 @@ theorem hypW0 (σ : Env) {hi : Nat} {s : St} (h : hi ≤ s.counter) : HypW (cx0 
   ⟨fun _ hk => hk.elim, fun _ hk => hk.elim, h⟩
 
 theorem erAll_of_er {lo hi : Nat} {e' e : Node} (h : ∀ σ, Er (cx0 σ) lo hi e' e) : ErAll lo hi e' e :=
-  fun σ => h σ σ (Cx.ext_base (cx0 σ))
+  fun e'' hb σ => h σ e'' hb σ (Cx.ext_base (cx0 σ))
 
 theorem VC_of_dd {lo hi : Nat} {e1 n : Node} {sp : Span} (hE : ErAll lo hi e1 n) (hd : IsDdS e1 sp) (hsp : n.span = sp) :
     VC lo hi e1 n := by
@@ -88,11 +88,13 @@ theorem assign_arm (cfg : Config) (l r l' r' : Node) (sp : Span) (s s1 : St)
       simp [tempTarget?] at htt
     · rfl
 
-theorem tpl_VC {lo hi : Nat} {es' es qs : List Node} {sp : Span} (h : KL lo hi es' es) :
+theorem tpl_VC {lo hi : Nat} {es' es qs : List Node} {sp : Span} (h : KL lo hi es' es) (hq : noBlkL qs = true) :
     VC lo hi (.tpl es' qs sp) (.tpl es qs sp) := by
   refine ⟨?_, Or.inl rfl, by simp [Deep], rfl, by simp [Node.isIdent]⟩
-  intro σ
-  obtain ⟨Xs, Δ, eX, sX, wX⟩ := eraseL_KL h σ
+  intro m hb σ
+  obtain ⟨es'', qs'', rfl, hes, hqs⟩ := hb.tpl_inv
+  rw [BRgL_noBlk hq hqs]
+  obtain ⟨Xs, Δ, eX, sX, wX⟩ := eraseL_KL h es'' hes σ
   refine ⟨.tpl Xs qs sp, Δ, by rw [erase_tpl, eX], ?_, wX⟩
   exact ⟨by simp only [strip, Forall2_Sim_strip sX], Or.inl rfl, noSp_tpl _ _ _⟩
 
@@ -101,18 +103,18 @@ theorem KL_forall2_er {lo hi : Nat} (cx : Cx) {ks' ks : List Node} (h : KL lo hi
 
 /-- the template arm -/
 theorem tpl_arm (cfg : Config) (es es' qs : List Node) (sp : Span) (s s1 : St)
-    (c01 : s.counter ≤ s1.counter) (hkl : KL s.counter s1.counter es' es) :
+    (c01 : s.counter ≤ s1.counter) (hkl : KL s.counter s1.counter es' es) (hq : noBlkL qs = true) :
     s1.counter ≤ (toDdTpl cfg (.tpl es' qs sp) s1).2.counter ∧
     VC s.counter (toDdTpl cfg (.tpl es' qs sp) s1).2.counter
       ((toDdTpl cfg (.tpl es' qs sp) s1).1.getD (.tpl es' qs sp)) (.tpl es qs sp) := by
   have key := fun σ => toDdTpl_Er cfg (cx0 σ) s.counter s1.counter es' es qs sp s1 (hypW0 σ (Nat.le_refl _)) c01
-    (KL_forall2_er _ hkl)
+    (KL_forall2_er _ hkl) hq
   have hc := (key []).1
   refine ⟨hc, ?_⟩
   cases hres : (toDdTpl cfg (.tpl es' qs sp) s1).1 with
   | none =>
     simp only [Option.getD_none]
-    exact (tpl_VC hkl).mono (Nat.le_refl _) hc
+    exact (tpl_VC hkl hq).mono (Nat.le_refl _) hc
   | some e1 =>
     simp only [Option.getD_some]
     exact VC_of_dd (erAll_of_er (fun σ => (key σ).2 e1 hres)) (toDdTpl_isDdS cfg es' qs sp s1 e1 hres) rfl
